@@ -79,7 +79,7 @@ impl LspProject {
                 Err(diagnostics) => diagnostics
                     .into_iter()
                     .filter(|d| d.file_ids().contains(&file_id))
-                    .map(|d| map_diagnostic(d, self.wrapped.as_ref()))
+                    .map(|d| map_diagnostic_for_file(d, &file_id, self.wrapped.as_ref()))
                     .collect(),
             };
         } else {
@@ -281,6 +281,35 @@ impl From<LspTokenType> for Option<SemanticToken> {
             token_modifiers_bitset: 0,
         })
     }
+}
+
+/// Convert diagnostic type into the LSP diagnostic type for publishing as a
+/// diagnostic of the specified file.
+///
+/// A diagnostic can have labels in several files (a name declared in two
+/// files). The published range is a position in the file the diagnostic is
+/// published for, so when the primary label is in another file, the range
+/// is taken from the first label that is in this file.
+fn map_diagnostic_for_file(
+    diagnostic: ironplc_dsl::diagnostic::Diagnostic,
+    file_id: &FileId,
+    project: &dyn Project,
+) -> lsp_types::Diagnostic {
+    let label_in_file = if &diagnostic.primary.file_id == file_id {
+        None
+    } else {
+        diagnostic
+            .secondary
+            .iter()
+            .find(|label| &label.file_id == file_id)
+            .cloned()
+    };
+
+    let mut mapped = map_diagnostic(diagnostic, project);
+    if let Some(label) = label_in_file {
+        mapped.range = map_label(&label, project);
+    }
+    mapped
 }
 
 /// Convert diagnostic type into the LSP diagnostic type.
